@@ -52,13 +52,24 @@ def run(ctx):
         flow = Flow(f.body)
         sl = Slicer(f.body)
 
+        from ..cfg import strip_ref
+        names_ = s.rv.j["fnames"]
+        oti_op = show(strip_ref(sl.x.operand(s.rv.ops[names_.index("oti")])))
+        obj_op = show(strip_ref(sl.x.operand(s.rv.ops[names_.index("object")])))
+        wrong = []
+
         def gate(n, flow=flow, sl=sl):
+            """the limit is the one of the OTI the FileDesc is built with, the length the one of the object it is built with"""
             if n[0] != "e":
                 return False
             for (a, t) in flow.edge_facts(n):
                 if a[0] == "le" and t:
                     if sources_match(sl, a[1], r"transfer_length") and sources_match(sl, a[2], r"call:.*Oti::max_transfer_length"):
-                        return True
+                        lim = [c for c in walk(sl.expand(a[2])) if c[0] == "call" and c[1].endswith("Oti::max_transfer_length")]
+                        lhs = show(sl.expand(a[1]), 200)
+                        if lim and all(show(strip_ref(c[2][0])) == oti_op for c in lim) and re.search(r"\b%s\)?\.transfer_length" % re.escape(obj_op), lhs):
+                            return True
+                        wrong.append("%s <= %s" % (lhs[:60], show(sl.expand(a[2]), 80)))
             return False
 
         ok, w = flow.must_pass(0, [bb], gate)
@@ -67,7 +78,9 @@ def run(ctx):
             r1.ok(key, "construction dominated by transfer_length <= max_transfer_length()", loc(s.sp))
         else:
             r1.violation(key, "a path reaches the FileDesc construction without passing the refusal gate "
-                              "(transfer_length <= Oti::max_transfer_length()): %s" % path_text(f.body, w), loc(s.sp))
+                              "(%s.transfer_length <= %s.max_transfer_length(), the OTI and object the FileDesc is built with)%s: %s" % (
+                                  obj_op, oti_op, (" - found only a gate on other values: " + "; ".join(sorted(set(wrong))[:2])) if wrong else "",
+                                  path_text(f.body, w)), loc(s.sp))
     r1.floor(1, "user constructions of FileDesc")
     wmc(r1, prog, r"^sender::filedesc::FileDesc::new$", [r"^sender::fdt::Fdt::(add_object|publish)$"])
 
@@ -114,6 +127,12 @@ def run(ctx):
     decoding_params_provenance(ctx, ctx.rule("C01.R5", DECODING_TEXT, "WWF + value provenance"))
     from . import c07 as _c07
     once_rule(ctx, ctx.rule("C01.R7", ONCE_TEXT, "E3 decision table over calls"))
+    block_addressing_rule(ctx, ctx.rule("C01.R9", ADDR_TEXT, "value shape + DOM"))
+    from . import c08
+    r8 = ctx.rule("C01.R8", "the sender never tells the receiver to close the object before its last packet (a premature close-object flag makes a "
+                            "clean-channel receiver abandon the object): " + c08.R1_TEXT + "; " + c08.R5_TEXT, "DEP with listed idioms + decision table (shared with C08.R1 / C08.R5)")
+    c08.close_flag_window_rule(ctx, r8)
+    c08.source_symbol_rule(ctx, r8)
     from . import c03
     c03.byte_accounting(ctx, ctx.rule("C01.R6", c03.BYTES_TEXT, "WWF + value shape + DOM"))
     metadata_flow_receiver(ctx, ctx.rule("C01.R4r", "receiver: each metadata field of ObjectReceiver assigned in attach_fdt "
@@ -237,6 +256,101 @@ def metadata_flow_receiver(ctx, rule):
                 rule.violation(key, "ObjectMetadata.%s does not read ObjectReceiver.%s (sources: %s)" % (
                     mf, of, ", ".join(sorted(srcs))[:200]), loc(s.sp))
     rule.floor(len(RECV_FIELDS) + len(META_FIELDS), "receiver metadata fields")
+
+
+ADDR_TEXT = ("receiver-side block addressing in push_to_block2: the slot of a packet is block_offset = SBN - blocks_offset (window-relative), the block "
+             "vector is indexed and grown with that offset, the 'too many blocks' refusal tests that offset (not the absolute SBN: objects with more "
+             "than 4096 blocks are legitimate), and the default source block length is a_large for SBN < nb_a_large, a_small otherwise")
+
+
+def block_addressing_rule(ctx, rule):
+    from .. import polarity
+    from ..cfg import strip_ref
+    prog = ctx.prog
+    f = prog.fn(OBJRECV + "::push_to_block2")
+    ctx.analysed(f.path)
+    sl = Slicer(f.body)
+    fl = Flow(f.body)
+    vd = sl.var_defs()
+    defs = [(e, bb) for (proj, e, bb) in vd.get("block_offset", []) if proj == ""]
+    key = "push_to_block2 block_offset"
+    okd = False
+    for e, bb in defs:
+        form, c0 = polarity.affine(e)
+        pos = [n for n, v in form.items() if v == 1]
+        neg = [n for n, v in form.items() if v == -1]
+        if c0 == 0 and len(form) == 2 and len(pos) == 1 and len(neg) == 1 and re.search(r"payload_id\.sbn", pos[0]) and re.search(r"self\.blocks_offset$", neg[0]):
+            okd = True
+    if okd and len(defs) == 1:
+        rule.ok(key, "SBN - blocks_offset", loc(f.sp))
+    else:
+        rule.violation(key, "block_offset = %s; expected payload_id.sbn - self.blocks_offset" % [show(e, 80) for e, _ in defs], loc(f.sp))
+    # indexing / growing the block vector
+    for s_, ai, mut in calls_on_field(prog, OBJRECV, "blocks", funcs=[f]):
+        m = method_name(s_)
+        if m in ("index_mut", "index", "get_mut", "get"):
+            a = show(strip_ref(s_.expr[2][1]))
+            key = "push_to_block2 blocks[%s]" % a
+            if a == "block_offset":
+                rule.ok(key, "", s_.loc)
+            else:
+                rule.violation(key, "the block vector is indexed with %s, not with the window-relative offset" % a, s_.loc)
+        elif m in ("resize_with", "resize"):
+            form, c0 = polarity.affine(s_.expr[2][1])
+            key = "push_to_block2 blocks.%s" % m
+            if form == {"block_offset": 1} and c0 == 1:
+                rule.ok(key, "to block_offset + 1", s_.loc)
+            else:
+                rule.violation(key, "the block vector is grown to %s" % show(s_.expr[2][1], 60), s_.loc)
+    # the refusal
+    errs = [(bb, e) for bb, e in ret_assign_blocks(f.body, lambda e: is_variant(e, "Err")) if "Too many blocks" in show(e, 200)]
+    key = "push_to_block2 'too many blocks' refusal"
+    if not errs:
+        # the refusal may have been reworded: look for Err returns dominated by a comparison of a large constant
+        errs = [(bb, e) for bb, e in ret_assign_blocks(f.body, lambda e: is_variant(e, "Err"))
+                if any(a[0] in ("lt", "le") and t and re.search(r"2048|4096|MAX_PREALLOCATED", show(a[1]) + show(a[2])) for (a, t) in fl.facts_at(bb))]
+    for bb, e in errs:
+        fs = [(a, t) for (a, t) in fl.facts_at(bb) if a[0] in ("lt", "le") and t and re.search(r"2048|4096", show(a[1]))]
+        if fs and all(show(strip_ref(a[2])) == "block_offset" for (a, t) in fs):
+            rule.ok(key, "under %s" % "; ".join("%s %s %s" % (show(a[1]), "<" if a[0] == "lt" else "<=", show(a[2])) for a, t in fs), loc(f.sp))
+        else:
+            rule.violation(key, "the refusal is decided by %s: an absolute block number makes large but legitimate objects fail" % (
+                ["%s %s %s" % (show(a[1], 40), a[0], show(a[2], 40)) for a, t in fs] or "no window-relative comparison"), loc(f.sp))
+    if not errs:
+        rule.violation(key, "refusal not found", loc(f.sp))
+    # default source block length
+    sel = []
+    bylocal = {}
+    for blk in f.body.blocks:
+        if blk.cleanup:
+            continue
+        for st in blk.stmts:
+            if st.k == "assign" and not st.lhs[1]:
+                e = sl.x.rvalue(st.rv, sl.x.depth)
+                if re.sub(r" as u\d+|[()]", "", show(e)) in ("self.a_large", "self.a_small"):
+                    bylocal.setdefault(st.lhs[0], []).append((e, blk.i))
+    for l_, vals in bylocal.items():
+        if len(vals) == 2 and {re.sub(r" as u\d+|[()]", "", show(e)) for e, _ in vals} == {"self.a_large", "self.a_small"}:
+            sel = vals
+    key = "push_to_block2 default source block length"
+    if not sel:
+        rule.violation(key, "selection between a_large and a_small not found", loc(f.sp))
+    else:
+        okk = True
+        for e, bb in sel:
+            large = "a_large" in show(e)
+            fs = fl.facts_at(bb)
+            lt = [t for (a, t) in fs if a[0] == "lt" and re.search(r"payload_id\.sbn", show(a[1])) and re.search(r"self\.nb_a_large", show(a[2]))]
+            ge = [t for (a, t) in fs if a[0] == "le" and re.search(r"self\.nb_a_large", show(a[1])) and re.search(r"payload_id\.sbn", show(a[2]))]
+            if large and not (lt and all(lt)):
+                okk = False
+            if not large and not (ge and all(ge)):
+                okk = False
+        if okk:
+            rule.ok(key, "a_large iff SBN < nb_a_large", loc(f.sp))
+        else:
+            rule.violation(key, "a_large / a_small are not selected by SBN < nb_a_large", loc(f.sp))
+    rule.floor(5, "addressing facts")
 
 
 ONCE_TEXT = ("Receiver::push_obj: a packet of an object that is in the completed registry never reaches create_obj / ObjectReceiver::push, except "
